@@ -1029,16 +1029,21 @@ CHECKS = {
             "and of CA p (directly under the trust anchor, signer exchange "
             "as separate tasks) is scripted as initiate / new-key "
             "certificate travels / activate / revocation travels; ONE "
-            "foreign operation sequence out of 15 kinds (ROA add, ROA "
+            "foreign operation sequence out of 17 kinds (ROA add, ROA "
             "remove, ASPA, BGPsec, parent shrinks or suspends the rolling "
             "CA, parent grows it, the rolling CA shrinks or suspends its "
             "child, a second initiate, an early or second activate, full "
             "sync with partial pump, forced republish with partial pump, "
-            "the child rolls too, renewal runs, a single-task pump) is "
-            "inserted at each of the 5 gaps: 2 x (1 + 15 x 5) = 152 cases, "
+            "the child rolls too, renewal runs, a single-task pump, parent "
+            "shrinks / grows the rolling CA followed by a full "
+            "synchronisation so that the new certificates arrive in that "
+            "very stage) is "
+            "inserted at each of the 5 gaps: 2 x (1 + 17 x 5) = 172 cases, "
             "all of them in the thorough tier (plus 600 seeded "
-            "double insertions), a seed-rotated slice of about 60 in the "
-            "quick tier. After every API call and after every single "
+            "double insertions); the quick tier runs the 42 core cases "
+            "(plain, entitlement change + sync, second initiate, early/"
+            "second activate at every gap) first and then a seed-rotated "
+            "slice of the others. After every API call and after every single "
             "background task: a non-current key (pending/new/old) of a CA "
             "whose publication is up to date publishes nothing but manifest "
             "and CRL, no product is validated under two keys of one class; "
